@@ -42,6 +42,11 @@ func lifeCases() []LifeCase {
 		}
 		level = next
 	}
+	// SetSize meeting a full event queue (ten unpolled key events) from a
+	// goroutine of its own, while the application makes other calls
+	for _, q := range [][]string{{"SetSizeFullQueue"}, {"SetSizeFullQueue", "Suspend", "Resume"}, {"Suspend", "Resume", "SetSizeFullQueue"}, {"SetSize", "SetSizeFullQueue", "SetSize"}} {
+		out = append(out, LifeCase{Seq: q})
+	}
 	return out
 }
 
@@ -189,6 +194,30 @@ func lifeProp(c LifeCase) error {
 			sizes++
 			w, h := 40+sizes, 10+sizes
 			e = call(i, op, false, func() { s.SetSize(w, h) })
+		case "SetSizeFullQueue":
+			if !running || fini {
+				continue
+			}
+			for nextEvent(s, negativeWait) != nil { // start from an empty queue
+			}
+			for k := 0; k < 10; k++ {
+				callback("onKeyEvent", "q", false, false, false, false)
+			}
+			sizes++
+			w, h := 40+sizes, 10+sizes
+			resized := make(chan struct{})
+			go func() { s.SetSize(w, h); close(resized) }()
+			time.Sleep(2 * time.Millisecond) // SetSize runs until it waits for room in the queue
+			e = call(i, "Size while SetSize waits for room in the full event queue", true, func() { s.Size() })
+			if e == nil {
+				e = call(i, "Show while SetSize waits for room in the full event queue", true, func() { s.Show() })
+			}
+			if e == nil {
+				for k := 0; k < 10; k++ {
+					nextEvent(s, positiveWait)
+				}
+				e = call(i, "SetSize (after the application polled the queue empty)", false, func() { <-resized })
+			}
 		case "Fini":
 			e = call(i, op, false, func() { s.Fini() })
 			fini = true
